@@ -54,7 +54,8 @@ static void gen_schedule(struct sim_prng *r)
 	P.rr_q = PICK(r, 1, 5, 50, 300);
 	P.stall_rate = PICK(r, 0, 0, 20, 100, 400);
 	P.stall_len = PICK(r, 200, 2000, 10000);
-	P.clk_den = PICK(r, 0, 1, 4, 16, 64);
+	P.clk_den = PICK(r, 0, 1, 1, 1, 4, 4, 16, 64);
+	P.clk_step = PICK(r, 1, 1, 1, 10, 100);
 	P.clk_jump_rate = PICK(r, 0, 0, 10, 100);
 	P.clk_back = PICK(r, 0, 0, 1);
 	P.edge_every = PICK(r, 0, 0, 0, 0, 40, 400);
@@ -62,7 +63,7 @@ static void gen_schedule(struct sim_prng *r)
 
 static void gen_model(struct sim_prng *r)
 {
-	P.m_budget = PICK(r, 1, 3, 8, 15, 30, 60);
+	P.m_budget = PICK(r, 1, 3, 8, 15, 30, 60, 120);
 	P.m_budget_var = PICK(r, 0, 0, 3, 10);
 	P.m_absorbing = 1;
 	P.m_fanout = PICK(r, 0, 1, 1, 2, 3);
@@ -100,12 +101,21 @@ static void gen_params(const char *profile, uint64_t base, long idx)
 	P.n_threads = PICK(&rc, 1, 2, 2, 2, 3, 3, 4, 6);
 	P.n_lps = PICK(c09 ? &rm : &rc, 1, 2, 3, 4, 4, 5, 6, 8, 8, 11, 16);
 	P.ckpt_interval = PICK(&rc, 0, 1, 2, 3, 5, 8);
-	P.gvt_period = PICK(&rc, 0, 0, 1, 5, 50, 1000, 100000);
+	P.gvt_period = PICK(&rc, 0, 0, 0, 1, 1, 5, 50, 300, 1000, 100000);
 	gen_model(&rm);
 	gen_schedule(&rs);
 
 	if(!strcmp(profile, "tw")) {
 		/* general single-rank profile */
+	} else if(!strcmp(profile, "long")) {
+		/* a GVT reduction costs ~14 main-loop iterations of every thread: only long runs see fossil collections followed by rollbacks */
+		P.m_budget = PICK(&rm, 100, 200, 400);
+		P.n_lps = PICK(&rc, 2, 3, 4, 6, 8);
+		P.n_threads = PICK(&rc, 2, 2, 3, 4);
+		P.gvt_period = PICK(&rc, 0, 0, 1, 5);
+		P.clk_den = PICK(&rs, 1, 1, 4);
+		P.m_mem = PICK(&rm, 0, 1, 1);
+		P.ckpt_interval = PICK(&rc, 0, 1, 2, 3, 5, 8, 20);
 	} else if(!strcmp(profile, "c03")) {
 		/* also runs that end with a speculative final state */
 		P.m_absorbing = PICK(&rm, 0, 0, 1);
